@@ -81,7 +81,7 @@ def known(c, op, cfg, raw):
     v = judge(c, op, cfg, raw)
     if v and v.startswith("ORDER") and c.get("rev"):
         return "F10 opposite-direction overlap: the two end points are reported in second-curve order (first-curve parameter decreasing)"
-    if v and v.startswith("touching arcs flagged") and len(c["c1"][0]) == 2 and len(c["c2"][0]) == 2 and "ok" in raw:
+    if v and v.startswith("touching arcs flagged") and c["n"] == 1 and "ok" in raw:   # straight segments (possibly degree-elevated)
         arr, flag = dec_res(raw["ok"])
         if flag and len(arr[0]) == 2 and arr[0][0] == arr[0][1] and arr[1][0] == arr[1][1]:
             return "F13 two straight segments of one line touching at a single point: reported as a flagged zero-width shared segment (two identical columns) instead of one unflagged point"
